@@ -187,7 +187,7 @@ Proof.
   unfold read_region_area. destruct (as_number v) as [q|].
   - intros H. inv_bind H. apply assert_ok in E. inversion H; subst. split; [reflexivity|].
     constructor; [|constructor]. cbn [fst snd]. split; [reflexivity|qb2p; exact E].
-  - destruct v as [| | | |d]; try discriminate. intros H. inv_bind H. apply assert_ok in E.
+  - destruct v as [| | | |d|]; try discriminate. intros H. inv_bind H. apply assert_ok in E.
     destruct (read_area_dict_ok _ _ H) as [A B]. split; [|exact B]. rewrite A. exact E.
 Qed.
 
@@ -262,7 +262,7 @@ Qed.
 
 Lemma parse_rectangle_wf f hd t r : parse_rectangle f hd t = Ok r -> rect_wf f hd r.
 Proof.
-  destruct t as [| | |l|]; try discriminate. cbn [parse_rectangle].
+  destruct t as [| | |l| |]; try discriminate. cbn [parse_rectangle].
   destruct l as [|x [|y [|w [|h [|e [|e' tl]]]]]]; try discriminate; intros H; do 4 inv_bind H;
     pose proof (rect_num_nonneg _ _ E) as Hx; pose proof (rect_num_nonneg _ _ E0) as Hy.
   - eapply finish_wf in H; [exact H|assumption|assumption|reflexivity|reflexivity].
@@ -281,7 +281,7 @@ Qed.
 
 Lemma parse_rectangles_wf f hd v rs : parse_rectangles f hd v = Ok rs -> Forall (rect_wf f hd) rs.
 Proof.
-  unfold parse_rectangles. destruct v as [| | |l|]; try discriminate. destruct l as [|first rest]; [discriminate|].
+  unfold parse_rectangles. destruct v as [| | |l| |]; try discriminate. destruct l as [|first rest]; [discriminate|].
   destruct (is_some (as_number first)); apply parse_rect_list_wf.
 Qed.
 
@@ -315,7 +315,7 @@ Qed.
 
 Lemma parse_module_wf name t m : parse_module name t = Ok m -> wf_module m.
 Proof.
-  destruct t as [| | | |info]; try discriminate. cbn [parse_module]. intros H. do 5 inv_bind H.
+  destruct t as [| | | |info|]; try discriminate. cbn [parse_module]. intros H. do 5 inv_bind H.
   apply assert_ok in E0. destruct (module_init_inv _ _ E2) as [Hi Hc].
   assert (Hr : Forall (rect_wf (s_fixed a2) (s_hard a2)) a3).
   { destruct (lookup KW_RECTANGLES info).
@@ -334,7 +334,7 @@ Qed.
 
 Lemma parse_edge_len t e : parse_edge t = Ok e -> (2 <= List.length (fst e))%nat.
 Proof.
-  destruct t as [| | |l|]; try discriminate. cbn [parse_edge]. intros H. do 3 inv_bind H.
+  destruct t as [| | |l| |]; try discriminate. cbn [parse_edge]. intros H. do 3 inv_bind H.
   apply assert_ok in E1. inversion H; subst. cbn [fst]. apply Nat.leb_le. exact E1.
 Qed.
 
@@ -352,7 +352,7 @@ Lemma parse_netlist_wf t ms es : parse_netlist t = Ok (ms, es) ->
   Forall wf_module ms /\ nodup_str (map m_name ms) = true /\
   Forall (fun e => (2 <= List.length (fst e))%nat) es.
 Proof.
-  destruct t as [| | | |items]; try discriminate. intros H.
+  destruct t as [| | | |items|]; try discriminate. intros H.
   destruct (parse_netlist_result _ _ _ H) as (_ & Hm & He). split; [|split].
   - destruct (lookup KW_MODULES items) as [v|]; [|subst; constructor].
     destruct v; try discriminate. cbn [parse_modules] in Hm. inv_bind Hm.
